@@ -20,8 +20,11 @@ type c14Layer struct {
 	Var   *string  `json:"var"`   // foreach: variable name (nil: the default, "forEach")
 	Items []string `json:"items"` // foreach: the items
 	Query bool     `json:"query"` // foreach: the items come from a list query instead of literal items
-	N     int      `json:"n"`     // loop: bound (counter 0..n-1)
-	Ext   bool     `json:"ext"`   // the layer's body also carries `ext trace E<k>`
+	// foreach with a list query: per item, the entry of the list is a NULL (an item like any other: the body
+	// runs for it, the variable is bound to a null)
+	Null []bool `json:"null,omitempty"`
+	N    int    `json:"n"`   // loop: bound (counter 0..n-1)
+	Ext  bool   `json:"ext"` // the layer's body also carries `ext trace E<k>`
 }
 
 type c14Nest struct {
@@ -70,6 +73,12 @@ func (p *c14Nest) norm() {
 				l.Items[i] = fmt.Sprintf("i%d", i)
 			}
 		}
+		if l.Kind != "foreach" || !l.Query {
+			l.Null = nil
+		}
+		if len(l.Null) > len(l.Items) {
+			l.Null = l.Null[:len(l.Items)]
+		}
 		if l.Kind == "foreach" {
 			name := c14VarName(l.Var)
 			if !c14IdentRe.MatchString(name) || used[name] {
@@ -106,8 +115,12 @@ func (p *c14Nest) data() W {
 	for k, l := range p.Layers {
 		if l.Kind == "foreach" && l.Query {
 			items := []any{}
-			for _, s := range l.Items {
-				items = append(items, s)
+			for i, s := range l.Items {
+				if i < len(l.Null) && l.Null[i] {
+					items = append(items, nil)
+				} else {
+					items = append(items, s)
+				}
 			}
 			d[fmt.Sprintf("xs%d", k)] = items
 		}
@@ -239,8 +252,11 @@ func (p *c14Nest) expect() (evs [][]any, failed bool, runs int) {
 	layer = func(k int) bool {
 		switch l := p.Layers[k]; l.Kind {
 		case "foreach":
-			for _, it := range l.Items {
+			for i, it := range l.Items {
 				env[k] = it
+				if l.Query && i < len(l.Null) && l.Null[i] {
+					env[k] = "<no value>" // what a template prints for a variable bound to a null
+				}
 				if pass(k) {
 					return true
 				}
@@ -321,6 +337,13 @@ func c14GenNest(r *rand.Rand) c14Nest {
 				l.Items = append(l.Items, l.Items[0]) // an item may occur twice
 			}
 			l.Query = r.Intn(3) == 0
+			if l.Query && len(l.Items) > 0 && r.Intn(2) == 0 {
+				l.Null = make([]bool, len(l.Items))
+				l.Null[r.Intn(len(l.Items))] = true
+				if r.Intn(3) == 0 {
+					l.Null[r.Intn(len(l.Items))] = true
+				}
+			}
 		}
 		p.Layers = append(p.Layers, l)
 	}
